@@ -812,14 +812,14 @@ def roundtrip_bounded(vc):
 @obligation("C12", "kepler_bounded", ensures=["B-C12-kepler.residual", "B-C12-kepler.mean-true-inverse", "B-C12-kepler.longitude-residual", "B-C12-kepler.sma-from-mean-motion"],
             fns=[AN + "meanAnom2EccAnom", AN + "meanAnom2TrueAnom", AN + "trueAnom2MeanAnom", AN + "meanLong2EccLong", AN + "eccLong2MeanLong", UT + "getSmaFromMeanMotion"], mode="R",
             native_only=True, samples=600,
-            bounded="BOUNDED stand-in, not a proof: 600 (quick) / 6000 (thorough) sampled (angle, eccentricity) pairs per run, e from 0 to 0.99 incl. the circular limit; the result "
+            bounded="BOUNDED stand-in, not a proof: 600 (quick) / 6000 (thorough) sampled (angle, eccentricity) pairs per run, e from 0 to 0.96 incl. the circular limit (0.97-0.99: kepler_high_ecc_bounded); the result "
                     "of scipy's Newton iteration is assumed, not decided",
             note="the iterative solves satisfy Kepler's equation (|E - e sin E - M| and |F + h cos F - k sin F - lambda| below 1e-9 modulo a turn), mean <-> true anomaly are mutually "
                  "inverse, and the semi-major axis recovered from the mean motion is the one it was computed from")
 def kepler_bounded(vc):
     from resonaate.physics.orbits import anomaly as A_, utils as U_
     M = vc.real("M", -10.0, 10.0, special=[0.0, np.pi, TWO_PI, -np.pi])
-    e = vc.real("e", 0.0, 0.99, special=[0.0, 1e-8, 1e-7, 0.5, 0.99])
+    e = vc.real("e", 0.0, 0.96, special=[0.0, 1e-8, 1e-7, 0.5, 0.96])   # (0.97 .. 0.99: kepler_high_ecc_bounded, where the equinoctial solve has a known finding)
     E = A_.meanAnom2EccAnom(M, e)
     ref = E - e * np.sin(E) if e >= 1e-7 else E
     vc.ensure("B-C12-kepler.residual", bool(0 <= E <= TWO_PI and _wrapdiff(ref, M) <= 1e-9))
